@@ -6,7 +6,7 @@
 // timeout, so a run is a deterministic function of the input line. The totally ordered event log is
 // judged by the Lean driver (GB.C11.handle): specification predicates + replay through the LTS.
 //
-// input : <P|S> <threads> <schedule>
+// input : <P|S|F|M> <threads> <schedule>      (F = service router, also parking inside its per-service loops)
 //
 //	threads  = thread;thread;…      thread = op,op,…
 //	op       = W<name>.<slot> | U<slot>.<name>.<ver>.<svcs> | C<slot> | L<svc>     (svcs: digits or "-")
@@ -89,6 +89,8 @@ type slotState struct {
 
 type run struct {
 	svc     bool
+	multi   bool // input kind M: pattern router, services with an even number are bound to GET (two per-method tables)
+	fine    bool // input kind F: park at the per-iteration yield points inside the service-router loops too
 	pr      *routing.PatternRouter
 	sr      *routing.ServiceRouter
 	workers []*worker
@@ -124,8 +126,18 @@ var hookNo = map[string]int{
 	"pattern.route.afterLoad":      3,
 }
 
+// per-iteration yield points inside ServiceRouter.updateRoutes / removeTarget (parked at only for input kind F)
+var hookNoFine = map[string]int{
+	"service.update.addIter": 4, // top of every iteration of the add loop
+	"service.update.delIter": 5, // after every release of the delete loop
+	"service.remove.iter":    6, // after every release of removeTarget
+}
+
 func (r *run) hook(name string, args ...string) {
 	n, ok := hookNo[name]
+	if !ok && r.fine {
+		n, ok = hookNoFine[name]
+	}
 	if !ok {
 		return
 	}
@@ -157,6 +169,9 @@ func (r *run) mkDesc(o op) *bridgedesc.Target {
 		d.Services[i] = bridgedesc.Service{
 			Name:    protoName(k),
 			Methods: []bridgedesc.Method{{RPCName: fmt.Sprintf("/pkg.S%d/M", k)}},
+		}
+		if r.multi && k%2 == 0 {
+			d.Services[i].Methods[0].Bindings = []bridgedesc.Binding{{HTTPMethod: http.MethodGet, Pattern: fmt.Sprintf("/pkg.S%d/M", k), RequestBodyPath: "*"}}
 		}
 	}
 	r.mu.Lock()
@@ -231,7 +246,11 @@ func (r *run) doOp(w *worker, o op) string {
 			}
 			tgt, svc = route.Target, route.Service
 		} else {
-			_, route, err := r.pr.RouteHTTP(&http.Request{Method: http.MethodPost, URL: &url.URL{Path: fmt.Sprintf("/pkg.S%d/M", o.key)}})
+			hm := http.MethodPost
+			if r.multi && o.key%2 == 0 {
+				hm = http.MethodGet
+			}
+			_, route, err := r.pr.RouteHTTP(&http.Request{Method: hm, URL: &url.URL{Path: fmt.Sprintf("/pkg.S%d/M", o.key)}})
 			if err != nil {
 				return fmt.Sprintf("e.%d.m", t)
 			}
@@ -424,7 +443,7 @@ func (Area) Exec(input string) string {
 	if len(f) > 0 && f[0] == "stress" {
 		return execStress(f)
 	}
-	if len(f) < 2 || (f[0] != "P" && f[0] != "S") {
+	if len(f) < 2 || (f[0] != "P" && f[0] != "S" && f[0] != "F" && f[0] != "M") {
 		return "BADINPUT"
 	}
 	sched := ""
@@ -434,7 +453,7 @@ func (Area) Exec(input string) string {
 	execMu.Lock()
 	defer execMu.Unlock()
 
-	r := &run{svc: f[0] == "S", tgtVer: map[*bridgedesc.Target]int{}, svcVer: map[*bridgedesc.Service]int{}, mthVer: map[*bridgedesc.Method]int{}}
+	r := &run{svc: f[0] == "S" || f[0] == "F", fine: f[0] == "F", multi: f[0] == "M", tgtVer: map[*bridgedesc.Target]int{}, svcVer: map[*bridgedesc.Service]int{}, mthVer: map[*bridgedesc.Method]int{}}
 	if r.svc {
 		r.sr = routing.NewServiceRouter(pool{}, routing.ServiceRouterOpts{})
 	} else {
@@ -630,6 +649,53 @@ func (Area) Gen(r *rand.Rand, tier string, emit func(string)) {
 		sc := "S " + first + ";U1.1.3.23;L2,L2;C1,L2;W0.0,U0.0.1.12,W1.1,U1.1.2.23"
 		enumSchedules("44444444", "0123", nh, func(s string) { count("exhaustive-handover"); emit(sc + " " + s) })
 	}
+	// FINE family (input kind F = service router, goroutines also park at the per-iteration yield points inside
+	// updateRoutes / removeTarget; the driver replays these traces through the fine LTS GB.C11.fstep):
+	{
+		setupAB := "W0.0,U0.0.1.12,W1.1,U1.1.2.23" // 12 releases
+		// two keys observed between two iterations of the add loop: L1 sees the new description, L2 still the old one
+		emit("F W0.0,U0.0.1.12;U0.0.2.12;L1,L2,L1,L2,L1,L2 000000" + "111" + "22" + "1" + "22" + "11" + "22")
+		// delete loop: the update drops services 1 and 2, lookups after each release
+		emit("F W0.0,U0.0.1.12;U0.0.5.3;L1,L2,L3,L1,L2,L3,L1,L2,L3 000000" + "1111" + "222" + "1" + "222" + "11" + "222")
+		// removeTarget loop of the owner A with claimant B waiting for service 2: after the first release service 1 is
+		// gone and 2 still A's, after the second release 2 is handed over to B
+		emit("F " + setupAB + ";C0;L1,L2,L1,L2,L1,L2,L1,L2 000000000000" + "11" + "22" + "1" + "22" + "1" + "22" + "1" + "22")
+		// ... with B parked mid-Close (flag set) while A's removeTarget hands over key by key, then B's removeTarget
+		emit("F " + setupAB + ";C0;C1;L2,L2,L2,L2,L3,L2 000000000000" + "2" + "111" + "33" + "11" + "3" + "222" + "333")
+		// A's update drops the contested service 2 (delete loop hands over to B), B re-submits in between iterations
+		emit("F " + setupAB + ";U0.0.5.1;U1.1.6.23;L2,L2,L2,L2 000000000000" + "111" + "2" + "33" + "1" + "3" + "11" + "222222" + "3")
+		// a new claimant's add loop parked between its two keys while the owner closes (blocked on the table mutex)
+		emit("F W0.0,U0.0.1.12;W1.1,U1.1.2.12;C0;L1,L2,L1,L2 000000" + "1111" + "2" + "33" + "22" + "1111" + "222" + "33")
+		nf := 5
+		if thorough {
+			nf = 7
+		}
+		// every schedule prefix over {update to a new description, close, two lookups, re-watch + update + lookup}
+		sc := "F U0.0.2.13;C0;L1,L3;W0.1,U1.0.3.1,L1;W0.0,U0.0.1.12"
+		enumSchedules("4444444", "0123", nf, func(s string) { count("exhaustive-fine"); emit(sc + " " + s) })
+		// ... and over the hand-over steps {A closes or drops, B re-submits, lookups, B closes + lookup}
+		for _, first := range []string{"C0", "U0.0.5.1"} {
+			sc := "F " + first + ";U1.1.3.23;L2,L2;C1,L2;" + setupAB
+			enumSchedules("444444444444", "0123", nf-1, func(s string) { count("exhaustive-fine-handover"); emit(sc + " " + s) })
+		}
+	}
+	// PER-METHOD family (input kind M = pattern router, even services bound to GET, odd ones default POST: two
+	// per-method lists with their own insertion orders; replayed through the lockstep per-method LTS)
+	{
+		// A joins the GET list after B: GET order [B, A], POST order [A, B]
+		emit("M W0.0,U0.0.1.1,W1.1,U1.1.2.12,U0.0.3.12,L2,L1;L2,L1 0000000000001111")
+		// A drops its GET routes and re-adds them: pushed to the back of the GET list only
+		emit("M W0.0,U0.0.1.12,W1.1,U1.1.2.12,L2,L1,U0.0.3.1,L2,L1,U0.0.4.12,L2,L1;L2,L1 00000000000000000000000001111")
+		// a lookup parked between its single snapshot load and the iteration while the other method's table changes
+		emit("M W0.0,U0.0.1.12;L1,L2,L1,L2;U0.0.2.14,U0.0.3.23,C0 00011222112221111")
+		emit("M W0.0,U0.0.1.12,W1.1,U1.1.2.24;L2,L4,L2;C0;U1.1.3.2 000000112213311")
+		nm := 4
+		if thorough {
+			nm = 7
+		}
+		sc := "M U0.0.2.14;C0;L1,L2,L4;W1.1,U1.1.3.12,L2;W0.0,U0.0.1.12"
+		enumSchedules("444", "0123", nm, func(s string) { count("exhaustive-methods"); emit(sc + " " + s) })
+	}
 	for _, k := range []string{"P", "S"} {
 		// the D11 schedule: update passes the closed check and parks, Close runs, update resumes, lookup, re-watch
 		emit(k + " W0.0;U0.0.1.12;C0;L1,W0.1,L1 0122133333")
@@ -672,8 +738,13 @@ func (Area) Gen(r *rand.Rand, tier string, emit func(string)) {
 
 func randomScenario(r *rand.Rand) string {
 	kind := "P"
-	if r.Intn(2) == 0 {
+	switch r.Intn(4) {
+	case 0:
 		kind = "S"
+	case 1:
+		kind = "F" // service router, parking inside the per-service loops as well
+	case 2:
+		kind = "M" // pattern router with two HTTP methods
 	}
 	nth := 2 + r.Intn(4)
 	ver := 0
@@ -740,7 +811,11 @@ func randomScenario(r *rand.Rand) string {
 	for i := r.Intn(4); i > 0; i-- {
 		sb.WriteByte('0')
 	}
-	for i := 4 + r.Intn(20); i > 0; i-- {
+	extra := 0
+	if kind == "F" {
+		extra = 12
+	}
+	for i := 4 + extra + r.Intn(20+extra); i > 0; i-- {
 		sb.WriteByte(byte('0' + r.Intn(nth)))
 	}
 	return kind + " " + strings.Join(threads, ";") + " " + sb.String()
